@@ -21,44 +21,49 @@ structure H3Acc where
   inner : Option InnerCipher := none
   deriving Repr
 
+def h3Cipher (acc : H3Acc) (buf : Bytes) : Outcome (Option H3Acc) :=
+  match cipherOfUuid buf with
+  | some c => .ok (some { acc with cipher := some c })
+  | none => .err .integrity
+def h3Compression (acc : H3Acc) (buf : Bytes) : Outcome (Option H3Acc) := do
+  let v ← readU32E buf
+  if v = 0 then .ok (some { acc with compression := some false })
+  else if v = 1 then .ok (some { acc with compression := some true })
+  else .err .integrity
+def h3Rounds (acc : H3Acc) (buf : Bytes) : Outcome (Option H3Acc) := do
+  let v ← readU64E buf
+  .ok (some { acc with rounds := some v })
+def h3Inner (acc : H3Acc) (buf : Bytes) : Outcome (Option H3Acc) := do
+  let v ← readU32E buf
+  match innerOfId v with
+  | some c => .ok (some { acc with inner := some c })
+  | none => .err .integrity
+
 def h3Field (acc : H3Acc) (t : UInt8) (buf : Bytes) : Outcome (Option H3Acc) :=
   if t = 0 then .ok none
   else if t = 1 then .ok (some acc)
-  else if t = 2 then
-    match cipherOfUuid buf with
-    | some c => .ok (some { acc with cipher := some c })
-    | none => .err .integrity
-  else if t = 3 then do
-    let v ← readU32 "kdbx3::parse_outer_header:index" buf
-    if v = 0 then .ok (some { acc with compression := some false })
-    else if v = 1 then .ok (some { acc with compression := some true })
-    else .err .integrity
+  else if t = 2 then h3Cipher acc buf
+  else if t = 3 then h3Compression acc buf
   else if t = 4 then .ok (some { acc with masterSeed := some buf })
   else if t = 5 then .ok (some { acc with transformSeed := some buf })
-  else if t = 6 then do
-    let v ← readU64 "kdbx3::parse_outer_header:index" buf
-    .ok (some { acc with rounds := some v })
+  else if t = 6 then h3Rounds acc buf
   else if t = 7 then .ok (some { acc with iv := some buf })
   else if t = 8 then .ok (some { acc with streamKey := some buf })
   else if t = 9 then .ok (some { acc with streamStart := some buf })
-  else if t = 10 then do
-    let v ← readU32 "kdbx3::parse_outer_header:index" buf
-    match innerOfId v with
-    | some c => .ok (some { acc with inner := some c })
-    | none => .err .integrity
+  else if t = 10 then h3Inner acc buf
   else .err .integrity
 
 /-- TLV loop with `u16` lengths -/
 def h3Loop : Nat → Bytes → Nat → H3Acc → Outcome (H3Acc × Nat)
-  | 0, _, _, _ => .panic "kdbx3::parse_outer_header:index"
+  | 0, _, _, _ => .err .integrity
   | fuel + 1, rest, n, acc =>
     match rest with
-    | [] => .panic "kdbx3::parse_outer_header:index"
+    | [] => .err .integrity
     | t :: r1 =>
-      if r1.length < 2 then .panic "kdbx3::parse_outer_header:index" else
+      if r1.length < 2 then .err .integrity else
       let len := le16 r1
       let r2 := r1.drop 2
-      if r2.length < len then .panic "kdbx3::parse_outer_header:index" else
+      if r2.length < len then .err .integrity else
       match h3Field acc t (r2.take len) with
       | .ok none => .ok (acc, n + 3 + len)
       | .ok (some acc') => h3Loop fuel (r2.drop len) (n + 3 + len) acc'
@@ -77,18 +82,18 @@ structure Decrypted3 where
 
 /-- the hashed block loop of `decrypt_kdbx3`: starts at offset 32, stops at a zero-size block -/
 def hashedBlocks (P : Prims) : Nat → Bytes → Bytes → Outcome Bytes
-  | 0, _, _ => .panic "decrypt_kdbx3:index"
+  | 0, _, _ => .err .integrity
   | fuel + 1, rest, out =>
     -- `payload[(pos+4)..(pos+36)]`, `payload[(pos+36)..(pos+40)]`
-    if rest.length < 36 then .panic "decrypt_kdbx3:index"
-    else if rest.length < 40 then .panic "decrypt_kdbx3:index"
+    if rest.length < 36 then .err .integrity
+    else if rest.length < 40 then .err .integrity
     else
       let hash := (rest.drop 4).take 32
       let size := le32 (rest.drop 36)
       if size = 0 then .ok out
       else
         let r := rest.drop 40
-        if r.length < size then .panic "decrypt_kdbx3:index"
+        if r.length < size then .err .integrity
         else
           let block := r.take size
           if hash != P.sha256 block then .err .integrity
@@ -115,7 +120,7 @@ def decrypt3 (P : Prims) (data : Bytes) (composite : Option Bytes) : Outcome Dec
         | none => .err .integrity
         | some payload =>
           -- `&payload[0..stream_start.len()]`
-          if payload.length < ss.length then .panic "decrypt_kdbx3:index"
+          if payload.length < ss.length then .err .key
           else if payload.take ss.length != ss then .err .key
           else do
             let buf ← hashedBlocks P (payload.length + 1) (payload.drop 32) []
@@ -174,54 +179,68 @@ structure GSt where
 
 def ensureLen (sz want : Nat) : Outcome Unit := if sz = want then .ok () else .err .integrity
 
+/-- `if level < branch.len() { group_path.truncate(level); collapse_tail_groups(..) }` -/
+def groupBranch (s : GSt) (level : Nat) : List (Bytes × List KNode) × List KNode × List Nat :=
+  if level < s.branch.length then
+    let (b, rc) := collapse (s.branch.length + 1) s.branch level s.rootCh
+    (b, rc, s.path.take level)
+  else (s.branch, s.rootCh, s.path)
+
+/-- push the group on the branch and record its position path -/
+def groupPlace (s : GSt) (branch : List (Bytes × List KNode)) (rootCh : List KNode) (path : List Nat) (level : Nat) :
+    Outcome GSt :=
+  if level = branch.length then
+    -- the position the group takes among its parent's children once the branch is collapsed
+    let position := match branch.getLast? with | some (_, cs) => cs.length | none => rootCh.length
+    match s.gid with
+    | none => .err .integrity
+    | some g =>
+      .ok { s with rootCh := rootCh, branch := branch ++ [(s.name, [])], path := path ++ [position],
+                   gidMap := (s.gidMap.filter (·.1 != g)) ++ [(g, path ++ [position])],
+                   name := [], gid := none, count := s.count + 1 }
+  else .err .integrity
+
+/-- the end-of-group record of `parse_groups` -/
+def groupEnd (s : GSt) : Outcome GSt :=
+  match s.level with
+  | none => .err .integrity
+  | some level =>
+    let t := groupBranch s level
+    groupPlace s t.1 t.2.1 t.2.2 level
+
+/-- one group record (`match field_type`) -/
+def groupField (s : GSt) (ty sz : Nat) (v : Bytes) : Outcome GSt :=
+  if ty = 0x0000 then .ok s
+  else if ty = 0x0001 then (ensureLen sz 4).bind fun _ => .ok { s with gid := some (le32 v) }
+  else if ty = 0x0002 then .ok { s with name := trimNul v }
+  else if 0x0003 ≤ ty ∧ ty ≤ 0x0006 then (ensureLen sz 5).bind fun _ => .ok s
+  else if ty = 0x0007 then (ensureLen sz 4).bind fun _ => .ok s
+  else if ty = 0x0008 then (ensureLen sz 2).bind fun _ => .ok { s with level := some (le16 v) }
+  else if ty = 0x0009 then (ensureLen sz 4).bind fun _ => .ok s
+  else if ty = 0xffff then (ensureLen sz 0).bind fun _ => groupEnd s
+  else .err .integrity
+
+/-- `read_field(data)`: `(field_type: u16, field_size: u32, field_value)` or `none` when the data ends first -/
+def readField (data : Bytes) : Option (Nat × Nat × Bytes × Bytes) :=
+  if data.length < 6 then none
+  else
+    let sz := le32 (data.drop 2)
+    let r := data.drop 6
+    if r.length < sz then none else some (le16 data, sz, r.take sz, r.drop sz)
+
 /-- `parse_groups`: the record loop; returns the state and the remaining bytes -/
 def parseGroups : Nat → Nat → Bytes → GSt → Outcome (GSt × Bytes)
   | 0, _, data, s => .ok (s, data)
   | fuel + 1, want, data, s =>
     if s.count ≥ want then .ok (s, data)
     else
-      -- `read_u16(&data[0..])`, `read_u32(&data[2..])`, `&data[6..6 + size]`
-      if data.length < 2 then .panic "parse_groups:index"
-      else if data.length < 6 then .panic "parse_groups:index"
-      else
-        let ty := le16 data
-        let sz := le32 (data.drop 2)
-        let r := data.drop 6
-        if r.length < sz then .panic "parse_groups:index"
-        else
-          let v := r.take sz
-          let next := r.drop sz
-          let cont := fun (s' : GSt) => parseGroups fuel want next s'
-          if ty = 0x0000 then cont s
-          else if ty = 0x0001 then (ensureLen sz 4).bind fun _ => cont { s with gid := some (le32 v) }
-          else if ty = 0x0002 then cont { s with name := trimNul v }
-          else if 0x0003 ≤ ty ∧ ty ≤ 0x0006 then (ensureLen sz 5).bind fun _ => cont s
-          else if ty = 0x0007 then (ensureLen sz 4).bind fun _ => cont s
-          else if ty = 0x0008 then (ensureLen sz 2).bind fun _ => cont { s with level := some (le16 v) }
-          else if ty = 0x0009 then (ensureLen sz 4).bind fun _ => cont s
-          else if ty = 0xffff then
-            (ensureLen sz 0).bind fun _ =>
-              match s.level with
-              | none => .err .integrity
-              | some level =>
-                let (branch, rootCh, path) :=
-                  if level < s.branch.length then
-                    let (b, rc) := collapse (s.branch.length + 1) s.branch level s.rootCh
-                    (b, rc, s.path.take level)
-                  else (s.branch, s.rootCh, s.path)
-                if level = branch.length then
-                  -- the position the group takes among its parent's children once the branch is collapsed
-                  let position := match branch.getLast? with | some (_, cs) => cs.length | none => rootCh.length
-                  let path := path ++ [position]
-                  let branch := branch ++ [(s.name, [])]
-                  match s.gid with
-                  | none => .err .integrity
-                  | some g =>
-                    cont { s with rootCh := rootCh, branch := branch, path := path,
-                                  gidMap := (s.gidMap.filter (·.1 != g)) ++ [(g, path)],
-                                  name := [], gid := none, count := s.count + 1 }
-                else .err .integrity
-          else .err .integrity
+      match readField data with
+      | none => .err .integrity
+      | some (ty, sz, v, next) =>
+        match groupField s ty sz v with
+        | .ok s' => parseGroups fuel want next s'
+        | .err c => .err c
+        | .panic p => .panic p
 
 /-- walking the position path: every step must designate a group -/
 def kWalk : List KNode → List Nat → Bool
@@ -247,43 +266,44 @@ def entryName (ty : Nat) : String :=
 def fInsert (fs : List (String × KVal)) (k : String) (v : KVal) : List (String × KVal) :=
   (fs.filter (·.1 != k)) ++ [(k, v)]
 
+/-- the end-of-entry record of `parse_entries`: attach the entry to the group its id names -/
+def entryEnd (gidMap : List (Nat × List Nat)) (s : ESt) : Outcome ESt :=
+  match s.gid with
+  | none => .err .integrity
+  | some g =>
+    match (gidMap.find? (·.1 == g)) with
+    | none => .err .integrity
+    | some (_, path) =>
+      if !kWalk s.rootCh path then .err .integrity
+      else .ok { rootCh := kAddAt s.rootCh path (.entry s.fields), fields := [], gid := none, count := s.count + 1 }
+
+/-- one entry record -/
+def entryField (gidMap : List (Nat × List Nat)) (s : ESt) (ty sz : Nat) (v : Bytes) : Outcome ESt :=
+  if ty = 0x0000 then .ok s
+  else if ty = 0x0001 then (ensureLen sz 16).bind fun _ => .ok s
+  else if ty = 0x0002 then (ensureLen sz 4).bind fun _ => .ok { s with gid := some (le32 v) }
+  else if ty = 0x0003 then (ensureLen sz 4).bind fun _ => .ok s
+  else if ty = 0x0004 ∨ ty = 0x0005 ∨ ty = 0x0006 ∨ ty = 0x0008 ∨ ty = 0x000d then
+    .ok { s with fields := fInsert s.fields (entryName ty) (.text (trimNul v)) }
+  else if ty = 0x0007 then .ok { s with fields := fInsert s.fields "Password" (.secret (trimNul v)) }
+  else if 0x0009 ≤ ty ∧ ty ≤ 0x000c then (ensureLen sz 5).bind fun _ => .ok s
+  else if ty = 0x000e then .ok { s with fields := fInsert s.fields "BinaryData" (.raw v) }
+  else if ty = 0xffff then (ensureLen sz 0).bind fun _ => entryEnd gidMap s
+  else .err .integrity
+
 /-- `parse_entries` -/
 def parseEntries (gidMap : List (Nat × List Nat)) : Nat → Nat → Bytes → ESt → Outcome (ESt × Bytes)
   | 0, _, data, s => .ok (s, data)
   | fuel + 1, want, data, s =>
     if s.count ≥ want then .ok (s, data)
     else
-      if data.length < 2 then .panic "parse_entries:index"
-      else if data.length < 6 then .panic "parse_entries:index"
-      else
-        let ty := le16 data
-        let sz := le32 (data.drop 2)
-        let r := data.drop 6
-        if r.length < sz then .panic "parse_entries:index"
-        else
-          let v := r.take sz
-          let next := r.drop sz
-          let cont := fun (s' : ESt) => parseEntries gidMap fuel want next s'
-          if ty = 0x0000 then cont s
-          else if ty = 0x0001 then (ensureLen sz 16).bind fun _ => cont s
-          else if ty = 0x0002 then (ensureLen sz 4).bind fun _ => cont { s with gid := some (le32 v) }
-          else if ty = 0x0003 then (ensureLen sz 4).bind fun _ => cont s
-          else if ty = 0x0004 ∨ ty = 0x0005 ∨ ty = 0x0006 ∨ ty = 0x0008 ∨ ty = 0x000d then
-            cont { s with fields := fInsert s.fields (entryName ty) (.text (trimNul v)) }
-          else if ty = 0x0007 then cont { s with fields := fInsert s.fields "Password" (.secret (trimNul v)) }
-          else if 0x0009 ≤ ty ∧ ty ≤ 0x000c then (ensureLen sz 5).bind fun _ => cont s
-          else if ty = 0x000e then cont { s with fields := fInsert s.fields "BinaryData" (.raw v) }
-          else if ty = 0xffff then
-            (ensureLen sz 0).bind fun _ =>
-              match s.gid with
-              | none => .err .integrity
-              | some g =>
-                match (gidMap.find? (·.1 == g)) with
-                | none => .err .integrity
-                | some (_, path) =>
-                  if !kWalk s.rootCh path then .err .integrity
-                  else cont { rootCh := kAddAt s.rootCh path (.entry s.fields), fields := [], gid := none, count := s.count + 1 }
-          else .err .integrity
+      match readField data with
+      | none => .err .integrity
+      | some (ty, sz, v, next) =>
+        match entryField gidMap s ty sz v with
+        | .ok s' => parseEntries gidMap fuel want next s'
+        | .err c => .err c
+        | .panic p => .panic p
 
 structure DecryptedKdb where
   minor : Nat
@@ -307,7 +327,7 @@ def parseKdb (P : Prims) (data : Bytes) (composite : Option (Option Bytes)) : Ou
     let rounds := le32 (data.drop 120)
     match composite with
     | none => .err .key                                   -- no key element at all
-    | some none => .panic "parse_kdb:unwrap"              -- a lone key element that is not 32 bytes long
+    | some none => .err .key              -- a lone key element that is not 32 bytes long
     | some (some comp) => do
       let tk ← runKdf P (.aes rounds) transformSeed comp
       let masterKey := P.sha256 (masterSeed ++ tk)
@@ -318,9 +338,9 @@ def parseKdb (P : Prims) (data : Bytes) (composite : Option (Option Bytes)) : Ou
       | some padded =>
         -- the second un-padding: `payload_padded[len - 1]`, `[..len - padlen]`
         match padded.getLast? with
-        | none => .panic "parse_kdb:arith"
+        | none => .err .key
         | some last =>
-          if last.toNat > padded.length then .panic "parse_kdb:arith"
+          if last.toNat > padded.length then .err .key
           else
             let payload := padded.take (padded.length - last.toNat)
             if contentsHash != P.sha256 payload then .err .key
